@@ -188,6 +188,8 @@ def _run(ctx):
 
     # ---- ROLE-6
     check_role6(rep, prog)
+    rep.rule("ROLE-8", "the port state changes only through set_forced_port_state (shared with C13 SERVO-10)", floor=1)
+    fc.check_state_writes(rep, prog, "ROLE-8")
     # ---- ROLE-7
     rep.rule("ROLE-7", "start_bmca/end_bmca carry port_state, filter, clock, config and BMCA state over unchanged "
                        "(shared with C10 TX-7)", floor=2)
@@ -229,6 +231,34 @@ def check_role6(rep, prog):
             rep.violation("ROLE-6", b.key, "S1 row", "S1 is constructed but no result row could be extracted", where=b.loc())
     if sites == 0:
         rep.anchor_missing("ROLE-6", "no construction of RecommendedState::S1 found in statime-lib")
+    # the record's `identity` is the RECEIVING port's own identity (it is what makes Ebest == Erbest true for exactly
+    # one port); the sender's identity is a neighbouring field of the same type
+    nb = 0
+    for b in sorted(prog.bodies.values(), key=lambda x: x.key):
+        if b.unit.name != "statime-lib" or b.is_test():
+            continue
+        pvb = None
+        for bi, si, st in mir.iter_stmts(b):
+            if st["k"] == "assign" and st["r"]["k"] == "agg" and st["r"].get("ak") == "adt" and \
+                    st["r"].get("name", "") == "BestAnnounceMessage":
+                pvb = pvb or df.Prov(b)
+                tr = pvb.rvalue_tree(st["r"])
+                idt = dict(tr[3]).get("identity")
+                if idt is None:
+                    continue
+                nb += 1
+                txt = df.canon(idt, b)
+                okid = (txt.endswith("own_port_identity") or txt.endswith(".port_identity") or txt == "identity" or
+                        txt.endswith(".identity")) and "source_port_identity" not in txt and "header" not in txt
+                if okid:
+                    rep.ok("ROLE-6", b.key, "record identity = receiving port", detail=txt, where=fc.where(b, st["sp"][1]))
+                else:
+                    rep.violation("ROLE-6", b.key, "record identity = receiving port",
+                                  "BestAnnounceMessage.identity is filled from `%s`, not from the receiving port's own identity: "
+                                  "two ports that hear the same Announce produce EQUAL records, both match Ebest and both are "
+                                  "told to become slave" % txt, where=fc.where(b, st["sp"][1]))
+    if nb == 0:
+        rep.anchor_missing("ROLE-6", "no construction of BestAnnounceMessage found")
     # record equality includes the receiver identity
     eqs = [b for b in prog.find(name="eq", crate="statime-lib") if "<BestAnnounceMessage as" in b.key and "PartialEq" in b.key]
     if len(eqs) != 1:
